@@ -3,6 +3,9 @@
 //     to a deviation bound; the bytes the real distribution loop wrote are then fed to the real
 //     Receiver.receiveLoop. (b) wire adversary: every single-frame and single-byte manipulation of
 //     a clean 6-entry stream (checkpoint every 2) is fed to the real receiveLoop.
+// (c) (wal.go) the producers are concurrent appenders on a real wal.Writer whose replication hook is
+//     wired as the coordinator wires it, so numbering/ordering decided upstream of the sender is explored.
+// (d) (wal.go) a reader reconnects under the same id while its old connection is still registered.
 package main
 
 import (
@@ -14,6 +17,7 @@ import (
 	"net"
 	"os"
 	"sort"
+	"strconv"
 	"strings"
 	"sync"
 	"time"
@@ -120,7 +124,15 @@ func specs() []spec {
 	}
 }
 
+// scenarios: the list (and its order) is the same in the parent and in every worker process.
 func scenarios() []sched.Scenario {
+	out := directScenarios()
+	out = append(out, walScenarios()...)
+	out = append(out, reconnectScenario())
+	return out
+}
+
+func directScenarios() []sched.Scenario {
 	var out []sched.Scenario
 	for _, sp := range specs() {
 		sp := sp
@@ -375,6 +387,10 @@ func wireAdversary(run *ev.Run) (cases, nontrivial int, samples []any) {
 func main() {
 	sched.Main(scenarios)
 	run := ev.Start("C24", "model_checking")
+	if err := hookMappingInRepo(); err != nil {
+		ev.Unbound(err.Error())
+	}
+	defer os.RemoveAll(scratchRoot)
 	scs := scenarios()
 	names := make([]string, len(scs))
 	var jobs []sched.Job
@@ -382,9 +398,29 @@ func main() {
 	if !run.Quick() {
 		bound = 4
 	}
+	// the WAL-hook scenarios have three more threads' worth of scheduling points per execution (WAL mutex, WAL
+	// writer goroutine, hook): the 2x1 scenario runs to the same bound as the direct producers, the 3- and 4-entry
+	// ones and the reconnect scenario to one deviation less (the budget: quick <= 60 s)
+	boundOf := func(name string) int {
+		b := bound
+		if (strings.HasPrefix(name, "WAL hook:") && !strings.Contains(name, "2 appenders x 1 ")) || name == reconnectName {
+			b = bound - 1
+		}
+		if v, err := strconv.Atoi(os.Getenv("VERIF_C24_WALBOUND")); err == nil && strings.HasPrefix(name, "WAL hook:") {
+			b = v // experiments only
+		}
+		return b
+	}
+	minBound := bound
+	bounds := map[string]int{}
 	for i, s := range scs {
 		names[i] = s.Name
-		jobs = append(jobs, sched.Job{Scenario: i, Bound: bound, FreeCost: 1})
+		b := boundOf(s.Name)
+		bounds[s.Name] = b
+		if b < minBound {
+			minBound = b
+		}
+		jobs = append(jobs, sched.Job{Scenario: i, Bound: b, FreeCost: 1})
 	}
 	res, err := sched.RunSharded(names, jobs, 4, 16, run.Deadline, 5*time.Second)
 	if err != nil {
@@ -434,12 +470,15 @@ func main() {
 	run.Coverage["schedules"] = execs
 	run.Coverage["wire_manipulations"] = wc
 	run.Coverage["wire_manipulations_nontrivial"] = wn
-	run.Coverage["deviation_bound_completed"] = bound
+	run.Coverage["deviation_bound_completed"] = minBound
+	run.Coverage["deviation_bounds"] = bounds
 	run.Coverage["samples"] = samples
 	run.Coverage["exhaustive"] = complete
 	run.Coverage["scenarios"] = per
-	run.Coverage["explanation"] = "states = distinct (scenario, applied order) outcomes; transitions = scheduling points; the sequence counter is a watched atomic; the receiver is the real receiveLoop run over the bytes the real sender wrote"
-	run.Assume("producers call Sender.Replicate directly (the WAL hook calls it outside the WAL lock, so hook concurrency equals producer concurrency)")
+	run.Coverage["explanation"] = "states = distinct (scenario, applied order + wire sequence numbers) outcomes; transitions = scheduling points; the sender's sequence counter is a watched atomic, the WAL numbers under its (instrumented) mutex; the receiver is the real receiveLoop run over the bytes the real sender wrote"
+	run.Assume("WAL-hook scenarios: the hook closure is a literal copy of the one Coordinator.StartReplication installs (the run refuses to start if coordinator.go no longer contains it); wal.Writer files live on tmpfs; WAL sync ticker and rotation never fire (virtual clock is not advanced)")
+	run.Assume("the real Receiver.receiveLoop runs after each execution over the bytes the sender wrote to the connection: what it applies is a function of that byte stream only (acks are disabled by AckInterval=1h), so interleaving it with the writer's threads adds no behaviour")
+	run.Assume("deviation bounds per scenario are in coverage.deviation_bounds: the 3- and 4-entry WAL-hook scenarios and the reconnect scenario run one deviation below the direct-producer scenarios")
 	run.Assume("wire adversary: one manipulation per stream (drop, duplicate, adjacent swap, cross-session splice, checkpoint replay, single bit flips 0x01/0x80 of every byte)")
 	run.Finish()
 }
